@@ -614,6 +614,25 @@ def run_reference(case):
 # ---------------------------------------------------------------------------------------------
 
 
+def branch_estimate(case):
+    """an upper bound on the number of callback invocations of one evaluation level (product over the sources of the
+    number of results they can present; a pool presents at most the product of its dice's faces)"""
+    worst = 0
+    for sl in case["srclists"]:
+        n = 1
+        for si in sl["srcs"]:
+            s = case["sources"][si]
+            if s["t"] == "h":
+                n *= max(1, len(s["items"]))
+            else:
+                k = 1
+                for d in s["dice"]:
+                    k *= max(1, len(d))
+                n *= k
+        worst = max(worst, n)
+    return worst
+
+
 def rand_source(rnd, small=True):
     r = rnd.random()
     if r < 0.55:
